@@ -51,6 +51,7 @@ let rtti r =
 let ptti t =
   pn t.t_cf; pn t.t_cs; pz t.t_ebn; pn t.t_jc; pz t.t_sgn; pz t.t_sn; pstr t.t_text; pz t.t_in; pz t.t_out; pz t.t_vp
 
+let rec int_of_nat = function O -> 0 | S n -> 1 + int_of_nat n
 let ns_class res = Buffer.add_string b "NS "; pres (fun _ -> ()) res
 
 let () =
@@ -86,4 +87,18 @@ let () =
   register "stlttiw" (fun r ->
     let t = rtti r in let fps = rz r in let dsc = rstr r in
     if time_faithful t.t_in && time_faithful t.t_out && text_faithful t.t_text then (pint 0; pstr (tti_bytes fps dsc Z0 t))
-    else Buffer.add_string b "NS 0 ")
+    else Buffer.add_string b "NS 0 ");
+  (* C17/C18: schedules, failing streams, failing destinations *)
+  register "stlreadsched" (fun r ->
+    let ign = rbool r in let d = rstr r in let cs = rlist (fun r -> nat_of_int (rint r)) r in
+    let res = read_stl_sched ign d cs in
+    if read_faithful d then pres prdoc res else ns_class res);
+  register "stlreadfail" (fun r ->
+    let ign = rbool r in let d = rstr r in let k = nat_of_int (rint r) in let cs = rlist (fun r -> nat_of_int (rint r)) r in
+    pres (fun _ -> ()) (read_stl_fail_at ign d k cs));
+  register "stlwriteto" (fun r ->
+    let now = rstr r in let md = ropt_with rwmeta r in let items = rlist rwitem r in let k = nat_of_int (rint r) in
+    let res = write_stl_to now md items (Fail_at k) in
+    if write_faithful md items then pres (fun n -> pint (int_of_nat n)) res else ns_class res);
+  (* C07 plain view: format code 3 *)
+  Drv_plain.register_plain 3 stl_dec stl_enc read_faithful
